@@ -188,6 +188,64 @@ def opKnnDecision : P String := do
   | .ignore => pure "ignore"
   | .use c f => pure s!"use {c} {if f then 1 else 0}"
 
+def rnd32 (x : Float) : Float := x.toFloat32.toFloat
+
+def pWord : P Rng.Word := do
+  let z ← pInt
+  pure (BitVec.ofInt 64 z)
+
+def fWord (w : Rng.Word) : String := toString w.toInt
+
+/-- `tau <s0> <s1> <s2> <count> <nVertices>` → `r_1 v_1 … r_count v_count s0' s1' s2'` -/
+def opTau : P String := do
+  let s0 ← pWord; let s1 ← pWord; let s2 ← pWord
+  let count ← pNat
+  let nv ← pNat
+  let mut st : Rng.RState := (s0, s1, s2)
+  let mut out : Array String := #[]
+  for _ in [0:count] do
+    let (st', r) := Rng.tauRandInt st
+    st := st'
+    out := out.push (toString r)
+    out := out.push (toString (Rng.floorMod r nv))
+  pure (join (out.toList ++ [fWord st.1, fWord st.2.1, fWord st.2.2]))
+
+/-- `sgd <aliased> <moveOther> <dim> <nVertices> <nHead> <nTail> <nEdges> <a> <b> <gamma>
+        <alphaMode 0=schedule 1=explicit> <alpha0-or-alpha> <N> <nStart> <nEnd>
+        head… tail… hd… tl… eps… epns… eons… eonns… rng(3·nHead)`
+    → `head… tail… eons… eonns… rng…` after epochs `nStart .. nEnd-1`. -/
+def opSgd : P String := do
+  let aliased ← pNat; let moveOther ← pNat
+  let dim ← pNat; let nV ← pNat; let nH ← pNat; let nT ← pNat; let nE ← pNat
+  let a ← pFloat; let b ← pFloat; let gamma ← pFloat
+  let amode ← pNat; let alpha0 ← pFloat; let N ← pNat; let n0 ← pNat; let n1 ← pNat
+  let head ← pMat nH dim pFloat
+  let tail ← pMat nT dim pFloat
+  let hd ← pMany nE pNat
+  let tl ← pMany nE pNat
+  let eps ← pMany nE pFloat
+  let epns ← pMany nE pFloat
+  let eons ← pMany nE pFloat
+  let eonns ← pMany nE pFloat
+  let rng ← pMany nH (do let x ← pWord; let y ← pWord; let z ← pWord; pure (x, y, z))
+  let P : Sgd.Params Float := { a := a, b := b, gamma := gamma, dim := dim, nVertices := nV,
+                                moveOther := moveOther == 1, aliased := aliased == 1 }
+  let mut s : Sgd.State Float := { head := (head.map List.toArray).toArray, tail := (tail.map List.toArray).toArray,
+                                   eons := eons.toArray, eonns := eonns.toArray, rng := rng.toArray }
+  for n in [n0:n1] do
+    let alpha := if amode == 1 then alpha0 else Sgd.alphaAt alpha0 N n
+    s := Sgd.epoch floatT rnd32 P hd.toArray tl.toArray eps.toArray epns.toArray alpha n none s
+  let fl := fun (m : Array (Array Float)) => (m.toList.map (fun r => r.toList.map fb)).flatten
+  pure (join (fl s.head ++ fl s.tail ++ s.eons.toList.map fb ++ s.eonns.toList.map fb
+    ++ (s.rng.toList.map (fun st => [fWord st.1, fWord st.2.1, fWord st.2.2])).flatten))
+
+/-- `eps <nEpochs> <n> weights…` → make_epochs_per_sample -/
+def opEps : P String := do
+  let ne ← pNat
+  let n ← pNat
+  let ws ← pMany n pFloat
+  pure (join ((Sgd.makeEpochsPerSample ws ne).map fb))
+
 def dispatch (op : String) : P String :=
   match op with
   | "knn" => opKnn
@@ -196,6 +254,9 @@ def dispatch (op : String) : P String :=
   | "sym" => opSym
   | "relations" => opRelations
   | "api" => opApi
+  | "tau" => opTau
+  | "sgd" => opSgd
+  | "eps" => opEps
   | "knndecision" => opKnnDecision
   | "ping" => pure "pong"
   | _ => throw "unknown"
